@@ -184,6 +184,16 @@ func (mergeEngine) Gen(t *rapid.T, tier string) any {
 			}
 		}
 	}
+	if c.RepeatID && rapid.IntRange(0, 3).Draw(t, "flood") == 0 {
+		// a client replaying one event many times over while the answers are
+		// outstanding: every submission gets its own OK, however many are pending
+		e := c.Events[0]
+		for j, n := 0, rapid.SampledFrom([]int{17, 20, 33}).Draw(t, "floodn"); j < n; j++ {
+			ev := e
+			c.Script = append(c.Script, simrt.Op{Kind: "send", Msg: &simrt.Msg{T: "EVENT", Ev: &ev}})
+			nEv++
+		}
+	}
 	for ci := 0; ci < nch; ci++ {
 		ch := mChild{Style: rapid.SampledFrom([]string{"seq", "seq", "async"}).Draw(t, "style")}
 		for r := 0; r < nReq; r++ {
